@@ -478,6 +478,11 @@ func driver(seed uint64, n int, outV, outJSON string, _ []string) {
 			_ = os.RemoveAll(imgDir)
 			continue
 		}
+		// the loader queues duplicate and surplus files for the background remover: let it finish before the
+		// directory is compared with the index (up to 60 s on a loaded machine)
+		for i := 0; i < 60000 && disk.VerifQueuedBytes(dc2) != 0; i++ {
+			time.Sleep(time.Millisecond)
+		}
 		snap2 := disk.VerifCacheSnapshot(dc2)
 		// accounting after restart
 		var sum int64
